@@ -177,6 +177,9 @@ func (r *replayer) call(a sysAct) callResult {
 		al, owner := r.mkAliases(a.Al)
 		r.owners = append(r.owners, owner)
 		parent := r.m.node[a.P]
+		if parent == nil {
+			return callResult{act: a}
+		}
 		det := extDetector(a.Acc)
 		name := r.m.realName(a.E)
 		if a.P == "root" && r.rng.Intn(2) == 0 {
@@ -195,7 +198,7 @@ func (r *replayer) call(a sysAct) callResult {
 
 // bindExt records the real node of a freshly published extension (extension type names
 // are unique, so Lookup returns the tree node itself).
-func (r *replayer) bindExt(a sysAct) {
+func (r *replayer) bindExt(a sysAct) bool {
 	h := mimetype.VerifHook
 	mimetype.VerifHook = nil
 	n := mimetype.Lookup(r.m.realName(a.E))
@@ -203,7 +206,9 @@ func (r *replayer) bindExt(a sysAct) {
 	if n != nil {
 		r.m.node[a.E] = n
 		r.m.id[n] = a.E
+		return true
 	}
+	return false
 }
 
 func (r *replayer) checkResult(h *sysHist, cr callResult, expPath []string, expFound, expFP string, hadExt bool, conc bool) {
@@ -305,7 +310,10 @@ func (r *replayer) replayDirect(h *sysHist) {
 			cr := r.call(a)
 			pending = &cr
 			if a.A == "EBuild" {
-				r.bindExt(a)
+				if !r.bindExt(a) {
+					r.fail([]string{"C14"}, "extension-not-found-after-extend", h, nil, fmt.Sprintf("Extend(%s) returned but Lookup does not find it", a.E))
+					return
+				}
 				hadExt = true
 			}
 			if a.A == "SStore" || a.A == "EBuild" {
@@ -470,11 +478,19 @@ func (r *replayer) replayGated(h *sysHist, timeout time.Duration) (ok bool) {
 			opIdx[a.G]++
 			if a.A == "EUnlock" {
 				// the lock is free again: bind the published node (Lookup takes the read lock)
+				lost := false
 				for j := i - 1; j >= 0; j-- {
 					if h.H[j].G == a.G && h.H[j].A == "EBuild" {
-						r.bindExt(h.H[j])
+						if !r.bindExt(h.H[j]) {
+							lost = true
+							r.fail([]string{"C06", "C14"}, "extension-lost", h, nil, fmt.Sprintf("Extend(%s) returned but Lookup does not find it: a concurrent Extend overwrote it", h.H[j].E))
+						}
 						break
 					}
+				}
+				if lost {
+					abort()
+					return false
 				}
 				hadExt = true
 			}
